@@ -1,1 +1,71 @@
-def hello := "world"
+/-!
+# Basic definitions shared by every model file
+
+Core Lean only (no Mathlib): the driver is compiled from these files.
+Signals are `List Rat` (every finite float64 is a dyadic rational, shipped exactly by the
+harness); sample indices are `Nat`/`Int`; NaN-able feature values are `Option Rat`.
+-/
+
+namespace Bycycle
+
+/-- Exceptions the implementation can raise, reduced to a small enum. -/
+inductive Err where
+  | valueError | indexError | keyError | typeError | attributeError | other
+  deriving Repr, DecidableEq, Inhabited
+
+def Err.toString : Err → String
+  | .valueError => "ValueError" | .indexError => "IndexError" | .keyError => "KeyError"
+  | .typeError => "TypeError" | .attributeError => "AttributeError" | .other => "Other"
+
+instance : ToString Err := ⟨Err.toString⟩
+
+/-- Comparison operators that appear as decision literals in the source; the slot
+translator emits one of these per extracted comparison. -/
+inductive Cmp where
+  | lt | le | gt | ge | eq | ne
+  deriving Repr, DecidableEq, Inhabited
+
+def Cmp.evalRat : Cmp → Rat → Rat → Bool
+  | .lt, a, b => decide (a < b) | .le, a, b => decide (a ≤ b)
+  | .gt, a, b => decide (b < a) | .ge, a, b => decide (b ≤ a)
+  | .eq, a, b => decide (a = b) | .ne, a, b => decide (a ≠ b)
+
+def Cmp.evalInt : Cmp → Int → Int → Bool
+  | .lt, a, b => decide (a < b) | .le, a, b => decide (a ≤ b)
+  | .gt, a, b => decide (b < a) | .ge, a, b => decide (b ≤ a)
+  | .eq, a, b => decide (a = b) | .ne, a, b => decide (a ≠ b)
+
+/-- numpy comparison with a possibly-NaN left operand: NaN compares false. -/
+def Cmp.evalOpt (c : Cmp) : Option Rat → Rat → Bool
+  | none, _ => false
+  | some a, b => c.evalRat a b
+
+/-- `np.argmax` on a non-empty list: index of the FIRST maximum. `none` on the empty list
+(numpy raises ValueError there). -/
+def argmaxFirst : List Rat → Option Nat
+  | [] => none
+  | x :: xs =>
+    let rec go (best : Rat) (bi : Nat) (i : Nat) : List Rat → Nat
+      | [] => bi
+      | y :: ys => if best < y then go y i (i+1) ys else go best bi (i+1) ys
+    some (go x 0 1 xs)
+
+/-- `np.argmin`: index of the FIRST minimum. -/
+def argminFirst : List Rat → Option Nat
+  | [] => none
+  | x :: xs =>
+    let rec go (best : Rat) (bi : Nat) (i : Nat) : List Rat → Nat
+      | [] => bi
+      | y :: ys => if y < best then go y i (i+1) ys else go best bi (i+1) ys
+    some (go x 0 1 xs)
+
+/-- python slice `l[a:b]` for `0 ≤ a`, `0 ≤ b` (no negative indices). -/
+def slice {α} (l : List α) (a b : Nat) : List α := (l.take b).drop a
+
+def sumRat (l : List Rat) : Rat := l.foldl (· + ·) 0
+
+/-- mean of a non-empty list; `none` (NaN) on the empty list, as `np.mean([])`. -/
+def meanRat (l : List Rat) : Option Rat :=
+  if l.isEmpty then none else some (sumRat l / (l.length : Rat))
+
+end Bycycle
